@@ -37,7 +37,7 @@ def build_all(combos):
 
     def b(c):
         dom, ty = c
-        exes[c] = core.build_harness("shape-%s-%s" % (dom, ty), ["shape.cc"], lib, flags="-DVDOM=%d -DVT=%s -I/repo/interfaces" % (DOMS[dom], ty))
+        exes[c] = core.build_harness("shape-%s-%s" % (dom, ty), ["shape.cc"], lib, flags="-DVDOM=%d -DVT=%s -I%s/interfaces" % (DOMS[dom], ty, core.REPO))
     with ThreadPoolExecutor(max_workers=max(2, core.NCPU - 2)) as ex:
         list(ex.map(b, combos))
     return exes
